@@ -4,6 +4,6 @@ cd "$(dirname "$0")/.." || exit 2
 tier=${1:-quick}
 ids=$(python3 -c "import json; print(' '.join(c['property_id'] for c in json.load(open('MANIFEST.json'))['checks']))")
 for id in $ids; do
-  s=$(date +%s); out=$(./check $id --tier $tier 2>&1); rc=$?
+  s=$(date +%s); out=$(timeout ${VERIF_CHECK_TIMEOUT:-14400} ./check $id --tier $tier 2>&1); rc=$?
   echo "$id rc=$rc $(( $(date +%s) - s ))s $(echo "$out" | grep -E '^(OK|VIOLATION|INCONCLUSIVE|KNOWN)' | head -2 | cut -c1-160)"
 done
